@@ -51,7 +51,7 @@ def cases(tier, rng):
     for name in HASHES:
         B, w = info(name)
         spill = B - w // 4
-        tails = [0, 1, spill - 1, spill, B - 1] if not name.startswith('blake2') else [0, 1, B // 2, B - 1]
+        tails = [0, 1, spill - 1, spill, B - 1] if not (name in ('blake2b', 'blake2s')) else [0, 1, B // 2, B - 1]
         for cuts in multisets():
             for tail in tails:
                 for pat in (('rand',) if tier == 'quick' else ('rand', 'zero', 'ones', 'x80')):
@@ -82,15 +82,19 @@ def cases(tier, rng):
     for j in range(40 if tier == 'quick' else 600):
         yield {'k': 'nil-multi', 'n': [70, 100, 256, 300, 1000][j % 5], 'ncuts': 2 + j % 4}
 
-def piecewise(h, name, pieces, final, flag=True, preset=None):
+def piecewise(h, name, pieces, final, flag=True, preset=None, init=None, prefix_of=None):
     """returns (digest, [bitcnt after each non-final piece]); `flag` is the truthy value that marks the final piece,
-    `preset` a bit counter standing for a long stream already fed"""
-    h.initstate()
+    `preset` a bit counter standing for a long stream already fed, `init` the arguments of initstate (salt, ...),
+    `prefix_of`: every non-final piece is handed over as (a longer buffer, bitlen = bits of the piece)"""
+    h.initstate(*(init or ((), {}))[0], **(init or ((), {}))[1])
     if preset is not None:
         h.padmethod.bitcnt = preset
     cnts = []
     for p in pieces:
-        h.update(p)
+        if prefix_of is not None and p:
+            h.update(p + prefix_of, bitlen=8 * len(p))
+        else:
+            h.update(p)
         cnts.append(h.padmethod.bitcnt)
     return h.update(final, padding=flag), cnts
 
@@ -129,6 +133,29 @@ def run(case, ctx, rng):
             if pieces:
                 ctx.eq('bitcnt-after-piece', got[1], want, **det)
         ctx.eq('oneshot==reference', one, ext, **det)
+        if k == 'cuts' and pieces and (sum(cuts) + tail) % 3 == 1:
+            # the same stream under a configuration given to initstate: salt (BLAKE), salt / personalization / output length (BLAKE2)
+            if (name in ('blake2b', 'blake2s')):
+                l = w // 4; sa = rng.randbytes(l); pe = rng.randbytes(l); ol = rng.randrange(1, w + 1)
+                init = ((), dict(salt=sa, pers=pe, outlen=ol))
+                wantc = (hashlib.blake2b if name == 'blake2b' else hashlib.blake2s)(M, salt=sa, person=pe, digest_size=ol).digest()
+            elif name.startswith('blake'):
+                sv = rng.getrandbits(4 * w) | 1
+                init = ((sv,), {}); wantc = rblake.blake(int(name[5:]), M, sv)
+            else:
+                init = None
+            if init is not None:
+                gc = call(piecewise, make(name), name, pieces, final, True, None, init)
+                ctx.eq('piecewise==reference', gc if is_exc(gc) else gc[0], wantc, configured=repr(init)[:80], **det)
+            if not (name in ('blake2b', 'blake2s')):
+                # non-final pieces handed over as a prefix of a longer buffer (buffer, bitlen): only the announced bits are consumed
+                gp = call(piecewise, make(name), name, pieces, final, True, None, None, rng.randbytes(B))
+                ctx.eq('piecewise==reference', gp if is_exc(gp) else gp[0], ext, pieces_as='(longer buffer, bitlen)', **det)
+                if not is_exc(gp):
+                    acc, wantn = 0, []
+                    for p in pieces:
+                        acc += 8 * len(p); wantn.append(acc)
+                    ctx.eq('bitcnt-after-piece', gp[1], wantn, pieces_as='(longer buffer, bitlen)', **det)
         if k == 'cuts' and (sum(cuts) + tail) % 2 == 0:
             # the usual read loop: every piece travels through ONE buffer the caller refills (and scrubs) between updates
             def reused_buffer():
@@ -238,7 +265,7 @@ def run(case, ctx, rng):
             c = h.padmethod.bitcnt
             h.update(M[B:2 * B])
             r3 = call(h.update, M[:B + 3])
-            if not name.startswith('blake2'):
+            if not (name in ('blake2b', 'blake2s')):
                 r4 = call(lambda: h.update(M[2 * B:], bitlen=8, padding=True))      # total-relative bit length below what was fed: refused
             return h.update(M[2 * B:], padding=True), c, (is_exc(r1), is_exc(r3))
         got = call(run_)
